@@ -7,6 +7,7 @@ import collections
 import hashlib
 import json
 import math
+import os
 import signal
 import traceback
 
@@ -15,6 +16,16 @@ import numpy as np
 
 class HarnessError(Exception):
     """A defect of the verification machinery itself (exit code 2, never a VIOLATION)."""
+
+
+class FailFast(BaseException):
+    """VERIF_FAILFAST=1 (mutation screening only, never a registered command): stop exploring once any worker of
+    the run has recorded a violation."""
+
+
+def _failfast_flag():
+    d = os.environ.get("VERIF_SHARED")
+    return os.path.join(d, "failfast") if d and os.environ.get("VERIF_FAILFAST") == "1" else None
 
 
 class CaseTimeout(Exception):
@@ -427,11 +438,17 @@ class Ctx:
                     "tier": self.tier,
                 }
             )
+        flag = _failfast_flag()
+        if flag and not self._scratch and not self.replay:
+            open(flag, "a").close()
 
     # ---- running cases -----------------------------------------------------------------
     def run_case(self, mod, case, fn=None):
         """Run one case under the watchdog; persim exceptions and hangs become violations."""
         fn = fn or mod.run_case
+        flag = _failfast_flag()
+        if flag and not self._scratch and os.path.exists(flag):
+            raise FailFast()
         self.case = case
         self.evaluations += 1
         self._obs = []
